@@ -123,6 +123,7 @@ PROPS = {
         "design_ref": "DESIGN.md section 6 C03",
         "jobs": [
             {"unit": "c03"},
+            {"unit": "c16"},  # select on complex batches
             {"unit": "c03", "variant": "native", "tiers": ["thorough"], "args": ["--scale", "0.2"]},
             {"unit": "c03", "variant": "ndebug", "tiers": ["thorough"], "args": ["--scale", "0.2"]},
             {"unit": "c03", "variant": "clang", "tiers": ["thorough"], "args": ["--scale", "0.2"]},
@@ -220,6 +221,7 @@ PROPS = {
         "design_ref": "DESIGN.md section 6 C05, 5.3",
         "jobs": [
             {"unit": "c05", "tiers": ["quick"]},
+            {"unit": "c16"},  # rotate / swizzle of complex batches (real and imaginary part must travel together)
             {"unit": "c05full", "tiers": ["thorough"]},
             {"unit": "c05full", "variant": "ndebug", "tiers": ["thorough"]},
             {"unit": "c05", "variant": "clang", "tiers": ["thorough"]},
